@@ -10,10 +10,10 @@ LINOP_ASSUME = ["bounds: atom catalogue and MaxStack/MaxLevel/MaxFlat of the the
                 "entries over Z[i]; flat sizes <= 16 (quick) / 24 (thorough)", "CPU numpy backend only"]
 
 PROPS = {
-    "C01": {"level": "model_checking", "engines": [LINOP], "rule": LINOP_RULE, "assumptions": LINOP_ASSUME, "trusted": TLC_BASE},
+    "C01": {"level": "model_checking", "engines": [LINOP, ("interp", "interp", "run")], "rule": LINOP_RULE, "assumptions": LINOP_ASSUME, "trusted": TLC_BASE},
     "C02": {"level": "model_checking", "engines": [LINOP, ("index_maps", "index_maps", "run")], "rule": LINOP_RULE, "assumptions": LINOP_ASSUME, "trusted": TLC_BASE},
     "C03": {"level": "model_checking", "engines": [LINOP], "rule": LINOP_RULE, "assumptions": LINOP_ASSUME, "trusted": TLC_BASE},
-    "C04": {"level": "model_checking", "engines": [LINOP], "rule": LINOP_RULE, "assumptions": LINOP_ASSUME, "trusted": TLC_BASE},
+    "C04": {"level": "model_checking", "engines": [LINOP, ("interp", "interp", "run")], "rule": LINOP_RULE, "assumptions": LINOP_ASSUME, "trusted": TLC_BASE},
     "C15": {"level": "model_checking", "engines": [("alg_protocol", "alg_protocol", "run"), ("cg", "cg", "run"), ("descent", "descent", "run")],
             "rule": "one case per Alg object observed through the trace hooks (driven along TLC-generated call sequences, inner solvers, and the repository's own tests) validated by TLC against AlgLoopTrace.tla; non-trivial = the object performed at least two updates",
             "assumptions": ["protocol model checked for max_iter 0..3 (quick) / 0..4 (thorough) with up to max_iter+2 hand-driven updates", "early-stop probe compares solution arrays bitwise after one further update"],
@@ -47,6 +47,10 @@ PROPS = {
             "rule": "one case per TLC state of Fourier.tla (shape, axes as written incl. negative indices, center, norm, oshape, direction), each replayed with complex128, complex64, float64 and delta inputs; non-trivial = some axis longer than 1",
             "assumptions": ["shapes: rank 1 to 8, rank 2 to 4x4, selected rank 3 and 4 (thorough: larger families)", "oshape changes per axis in {-1, 0, +2}, only with center=True", "tolerance 1e-10 (complex128) / 2e-5 (complex64 and real input)"],
             "trusted": TLC_BASE + ["numpy.exp for realising roots of unity"]},
+    "C07": {"level": "model_checking", "engines": [("interp", "interp", "run")],
+            "rule": "one case per TLC state of Interp.tla (grid, kernel, widths, exact rational sample point); each replayed for real/complex data, scalar and per-axis spelling, batch axis, duplicated point, interpolate and gridding, and the two linops; all non-trivial",
+            "assumptions": ["grids 1-D to 5, 2-D to 3x3, one 3-D grid (thorough: larger); coordinates multiples of 1/4 incl. ties and far outside; widths {1, 3/2, 2, 5/2, 3, 4}", "Kaiser-Bessel weights from scipy.special.i0 at the spec's exact arguments, tolerance 2e-6 relative (accuracy of the documented series)"],
+            "trusted": TLC_BASE + ["Rat.tla", "scipy.special.i0"]},
     "C09": {
         "level": "model_checking",
         "engines": [("index_maps", "index_maps", "run")],
@@ -61,6 +65,8 @@ PROPS = {
 HOOK_COMMITS = ["609775d"]
 
 ENGINES = [
+    {"name": "interp", "path": "harness/engines/interp.py + spec/Interp.tla", "serves_properties": ["C07", "C01", "C04"],
+     "kind_free_text": "TLC enumeration of interpolation windows in exact rationals + replay of interpolate/gridding and the Interpolate/Gridding linops"},
     {"name": "fourier", "path": "harness/engines/fourier.py + spec/Fourier.tla", "serves_properties": ["C05"],
      "kind_free_text": "TLC enumeration of fft/ifft configurations with exact exponent laws + replay against explicit DFT matrices"},
     {"name": "descent", "path": "harness/engines/descent.py + spec/ProxGrad.tla, spec/DescentTrace.tla", "serves_properties": ["C13", "C15"],
@@ -115,7 +121,7 @@ MANIFEST_TEXT = {
 }
 
 NOT_APPLICABLE = {p: "check not built yet in this round (planned, see DESIGN.md section 5)" for p in
-                  ["C06", "C07", "C08", "C10", "C16", "C17", "C19"]}
+                  ["C06", "C08", "C10", "C16", "C17", "C19"]}
 
 MANIFEST_TEXT["C18"] = {
     "text": "PoissonSearch.tla models the slope bisection on a float lattice with an arbitrary (non-monotone) acceleration function; TLC checks OkIsWithinTol and the liveness property Terminates (the loop without the collapse test is kept as a negative control that must fail). poisson() is run on the real code with _poisson wrapped under a watchdog; every call (probes as slope ranks + integer facts about the mask, RNG state crc, reproducibility memo) is validated by TLC against PoissonTrace.tla.",
@@ -152,3 +158,9 @@ MANIFEST_TEXT["C05"] = {
     "design_ref": "DESIGN.md section 5 C05",
     "note": "Trusted: TLC, numpy.exp / tensordot for the reference. numpy's FFT kernel accuracy assumed 1e-10.",
     "technique": "TLA+ exponent-matrix spec (TLC exhaustive) + spec-to-code replay"}
+
+MANIFEST_TEXT["C07"] = {
+    "text": "Interp.tla states the documented kernel sum in exact rationals: per axis the window ceil(c-W/2)..floor(c+W/2), periodic wrap, argument (i-c)/(W/2), B-spline weights of order 0/1/2 (Kaiser-Bessel: the exact argument, evaluated with I0 by the harness); TLC checks window completeness, wrap range, non-negativity and the partition of unity of linear interpolation on every enumerated call (ties, negatives, far-outside points, per-axis widths). Every state is replayed on sigpy.interpolate and sigpy.gridding (transpose, coincident contributions add), real/complex, batch axis, scalar vs per-axis spelling, and on the Interpolate/Gridding linops (adjoint, A.N).",
+    "design_ref": "DESIGN.md section 5 C07",
+    "note": "Trusted: TLC, Rat.tla, scipy.special.i0 (KB tolerance 2e-6). 3-D grids: one in quick, three in thorough.",
+    "technique": "TLA+ exact-rational kernel windows (TLC) + spec-to-code replay"}
